@@ -197,6 +197,10 @@ def run(ctx):
                        "label kinds" % [p[0] for p in plans])
     for d in sorted(doclist, key=lambda d: -len(d["out"]))[:2] + doclist[:2]:
         ctx.sample({"wikitext": W.concretise(d), "den": [[w, ["%s%s" % (k, a or "") for k, a in p], t] for w, p, t in W.expected(d)]})
+    # ---- beyond the listed property: how runs of apostrophes are read (spec/Apostrophes.tla,
+    # mwlib.parser.styleanalyzer.compute_path) - reported as SPEC-DRIFT only
+    from harness import apostrophes
+    apostrophes.check(ctx, ctx.tier == "quick")
     ctx.assume("MediaWiki semantics of the generated constructs are those written in WikiDoc.tla (den); the grammar is conservative: "
                "styles closed on their line, no adjacent apostrophe runs, a blank after a link before a word (no link trail)",
                "inline labels (Bold, Italic, Link, Ext) are compared as a set; styles opened outside <ref> do not apply inside it",
